@@ -232,9 +232,65 @@ fn c13_wide_e1_bounded(seed: u64) {
     report("c13_wide_e1_bounded", "B", r, &["failing input index | N << 32; operands are structured(N, mix(i ^ seed ..))".to_string()]);
 }
 
+// ---- C14: float -> generic posit (the code loops on f64 values: out of the verifier's reach) -- BOUNDED native evaluation
+fn structured_f64(r: u64) -> u64 {
+    // exponent swept over [-160, 160] around the bias, fraction: zero / all ones / single bits / pseudo-random; both signs
+    let e = 1023i64 + ((r % 321) as i64 - 160);
+    let kind = (r >> 12) & 7;
+    let t = mix(r);
+    let frac: u64 = match kind {
+        0 => 0,
+        1 => (1u64 << 52) - 1,
+        2 => 1u64 << (t % 52),
+        3 => ((1u64 << 52) - 1) ^ (1u64 << (t % 52)),
+        4 => (t & ((1u64 << 52) - 1)) & !((1u64 << (t % 40)) - 1),
+        _ => t & ((1u64 << 52) - 1),
+    };
+    let special = (r >> 20) & 0x3ff;
+    if special == 0 { return 0; }
+    if special == 1 { return 0x7ff0_0000_0000_0000 | (t & 1) << 63; }
+    if special == 2 { return 0x7ff8_0000_0000_0001; }
+    if special == 3 { return (t & 0xf_ffff_ffff_ffff) | ((t >> 60) & 1) << 63; } // subnormal
+    ((r >> 16) & 1) << 63 | ((e as u64) << 52) | frac
+}
+macro_rules! c14_float {
+    ($fname:ident, $PX:ident, $es:expr, [$($n:literal),*]) => {
+        fn $fname(seed: u64) -> (u64, u64, Vec<u64>) {
+            let mut total = (0u64, 0u64, Vec::new());
+            $(
+                let r = sweep(1 << 18, move |i| {
+                    let n: u32 = $n;
+                    let fb = structured_f64(mix(i ^ seed) );
+                    let f = f64::from_bits(fb);
+                    let r64 = $PX::<$n>::from_f64(f).to_bits();
+                    let g = f as f32;
+                    let r32 = $PX::<$n>::from_f32(g).to_bits();
+                    let ok = px_closed(r64, n) && from_f64_ok(fb, px(r64, n), n, $es) && px_closed(r32, n) && from_f32_ok(g.to_bits(), px(r32, n), n, $es);
+                    (ok, fb << 1 != 0)
+                });
+                total.0 += r.0 * 2; total.1 += r.1;
+                total.2.extend(r.2.iter().map(|x| x | (($n as u64) << 32)));
+            )*
+            total
+        }
+    };
+}
+c14_float!(c14_float_e2, PxE2, 2, [2, 3, 4, 5, 8, 12, 16, 20, 24, 28, 31, 32]);
+c14_float!(c14_float_e1, PxE1, 1, [2, 3, 4, 5, 8, 12, 16, 20, 24, 28, 31, 32]);
+// @n name=c14_from_float_e2_bounded props=C14 fn=PxE2<N>::from_f64,PxE2<N>::from_f32 tier=quick t=1200 mode=B kf=D18
+fn c14_from_float_e2_bounded(seed: u64) {
+    report("c14_from_float_e2_bounded", "B", c14_float_e2(seed), &["failing sweep index | N << 32; input = structured_f64(mix(i ^ seed))".to_string()]);
+}
+// @n name=c14_from_float_e1_bounded props=C14 fn=PxE1<N>::from_f64,PxE1<N>::from_f32 tier=quick t=1200 mode=B kf=D18
+fn c14_from_float_e1_bounded(seed: u64) {
+    report("c14_from_float_e1_bounded", "B", c14_float_e1(seed), &["failing sweep index | N << 32; input = structured_f64(mix(i ^ seed))".to_string()]);
+}
+
 fn run(name: &str, _seed: u64) -> bool {
     match name {
         "c06_p32_sqrt_exhaustive" => c06_p32_sqrt_exhaustive(),
+        "c14_from_float_e2_bounded" => c14_from_float_e2_bounded(_seed),
+        "c14_from_float_e1_bounded" => c14_from_float_e1_bounded(_seed),
         "c13_wide_e2_bounded" => c13_wide_e2_bounded(_seed),
         "c13_wide_e1_bounded" => c13_wide_e1_bounded(_seed),
         "c03_text_roundtrip_bounded" => c03_text_roundtrip_bounded(_seed),
